@@ -19,6 +19,7 @@ BOUND = ("d=2, domains [0,1]^2 and [-0.5,1.5]^2; dimension-wise (GlobalTrapezoid
          "integrands Genz family + random smooth, scalar and 2-component; uninterrupted runs with <=8 evaluations (final limit: max_evaluations, "
          "or a tolerance with reference solution + max_evaluations); every interruption index j incl. the last one (stop by max_evaluations=n_j-1; last index: first limit n_(k-1), final limit n_k-1, i.e. already exceeded at the stop; additionally, dimension-wise only, one stop by a "
          "larger tolerance with a tolerance-decided final stop); save/restore round trip through dill at up to 3 (quick: 2) interruption indices per configuration, 7 random probe points")
+BOUND += "; round-10 additions: one fixed four-dimensional case with lmin = lmax = 2 (interrupt at 750, final 1800 points)"
 RULE = BOUND + "; a case is one (configuration, integrand, final limits, interruption limits, with/without save+restore); non-trivial = interruption strictly before the final stop and at least one refinement in the uninterrupted run"
 CLAUSES = {
     "B.resume.structure": "after stop + continue_adaptive_refinement(final limits): refinement structure (intervals/areas with levels and coarsening, lmax) equals that of the uninterrupted run",
